@@ -1,7 +1,19 @@
 import FordModel.Proto
 import FordModel.Reader
+import FordModel.InitialValue
 namespace Ford
 open Proto
+
+def rerrNameInit : Show.RErr → Str
+  | .badEscape => "bad-escape".toList
+  | .unsupported => "unsupported".toList
+  | .badNumber => "bad-number".toList
+  | .index => "index".toList
+  | .noMatch => "no-match".toList
+  | .emptyInit => "empty-init".toList
+
+def varFieldsInit (v : Show.VarShow) : List Str :=
+  [v.name, match v.initial with | none => ['N'] | some t => 'S' :: t]
 
 def rerrName : RErr → Str
   | .predocInline => "predoc-inline".toList
@@ -31,6 +43,21 @@ def dispatchC02 : List Str → Option (List Str)
     else if cmd == "comscan".toList then
       match args with
       | [mark, s] => some ["ok".toList, match comScan mark s with | some i => showNat i | none => "none".toList]
+      | _ => some ["bad-request".toList]
+    else if cmd == "c02.decl".toList then
+      -- c02.decl <declaration statement> : name / recorded initial value of every entity
+      match args with
+      | [s] =>
+        match InitialValue.declVars s with
+        | .ok vs => some ("ok".toList :: (vs.map varFieldsInit).flatten)
+        | .error e => some ["err".toList, rerrNameInit e]
+      | _ => some ["bad-request".toList]
+    else if cmd == "c02.cut".toList then
+      -- c02.cut <statement> : masked statement, then the literals cut out of it
+      match args with
+      | [s] =>
+        let segs := Show.cutLits s
+        some ("ok".toList :: Show.segMasked segs 0 :: Show.segStrings segs)
       | _ => some ["bad-request".toList]
     else none
   | [] => none
